@@ -3,6 +3,9 @@ import Relsad.Model.TimeM
 import Relsad.Model.Increments
 import Relsad.Model.Battery
 import Relsad.Model.Fail
+import Relsad.Model.BusAcct
 import Relsad.Props.C17
 import Relsad.Props.C11
 import Relsad.Props.C13
+import Relsad.Props.C10
+import Relsad.Props.C01
